@@ -65,7 +65,10 @@ def rule_index_classification(ctx, rep):
         fld = r[2].cls.name if ok and isinstance(r[2], Obj) else None
         rep.check(ok and got == want and fld == "RekeyTo", rule, name, where, {"index": got, "field": fld}, {"index": want, "field": "RekeyTo"},
                   why="a field read is attributed to the wrong transaction of the group", sample={"read": name, "index": want})
-    for name, seq in {"txna (array read)": ["txna ApplicationArgs 0"], "int": ["int 1"], "global": ["global GroupSize"], "itxn": ["itxn RekeyTo"]}.items():
+    for name, seq in {"txna (array read)": ["txna ApplicationArgs 0"], "int": ["int 1"], "global": ["global GroupSize"], "itxn": ["itxn RekeyTo"],
+                      # reads of the inner transactions an application has submitted say nothing about the members of the outer group
+                      "gitxn (inner group)": ["gitxn 0 RekeyTo"], "gitxn 1 (inner group)": ["gitxn 1 RekeyTo"], "itxna": ["itxna Accounts 0"],
+                      "gitxna (inner group)": ["gitxna 0 Accounts 0"]}.items():
         v, _, _ = b.operand(seq, consumer="pop")
         r = w.call(f, v)
         rep.check(isinstance(r, tuple) and r[0] is False, rule, f"not a scalar field read: {name}", where, r, (False, None, None))
